@@ -2,17 +2,40 @@
  * g_g is a GHOST INDEX: arbitrary in [0, g_n), never constrained — a statement about A[g_g] is a statement about every element. */
 #include <stddef.h>
 #include <stdlib.h>
-const int *g_A; unsigned long g_n; int g_key; unsigned long g_g;
+#ifdef VX_KEY2
+typedef struct { int c[2]; } ELT;
+/* element comparisons are evaluated by the C++ unit (operator< / == of the scaffold key type): CBMC 6.11 does not give the C and the
+   C++ struct views of the same bytes the same values, so the C side never looks inside an element */
+_Bool vx_lt(const void *a, const void *b); _Bool vx_eq(const void *a, const void *b);
+#define LT(a, b) vx_lt(&(a), &(b))
+#define EQ(a, b) vx_eq(&(a), &(b))
+#else
+typedef int ELT;
+#define LT(a, b) ((a) < (b))
+#define EQ(a, b) ((a) == (b))
+#endif
+#define LE(a, b) (!LT(b, a))
+#ifndef VX_NODE_MAX
+#define VX_NODE_MAX 64
+#endif
+const ELT *g_A; unsigned long g_n; unsigned long g_g;
+#ifdef VX_KEY2
+int g_keyv[2];                       /* storage is plain int: the C side never reads an element through a struct type */
+#define g_key (*(ELT *)g_keyv)
+#else
+ELT g_key;
+#endif
 _Bool f_ll, f_lu, f_bl, f_bu, f_bc; long v_ll, v_lu, v_bl, v_bu, v_bc;    /* hook flags and recorded variants */
 int nondet_int(void); unsigned long nondet_ulong(void); long nondet_long(void);
 
 /* sortedness precondition, instantiated for the pair (touched element, ghost element) */
-void vx_touch(const int *x, const int *y) {
-    const int *p = (x == &g_key) ? y : x;
+void vx_touch(const void *x_, const void *y_) {
+    const ELT *x = (const ELT *)x_, *y = (const ELT *)y_;
+    const ELT *p = (x == &g_key) ? y : x;
     __CPROVER_assert((x == &g_key) != (y == &g_key), "comparator is applied to the key and a node element");
     __CPROVER_assert(__CPROVER_same_object(p, g_A) && p >= g_A && p < g_A + g_n, "comparator reads inside the node");
     unsigned long i = (unsigned long)(p - g_A);
-    __CPROVER_assume(i <= g_g ? g_A[i] <= g_A[g_g] : g_A[g_g] <= g_A[i]);
+    __CPROVER_assume(i <= g_g ? LE(g_A[i], g_A[g_g]) : LE(g_A[g_g], g_A[i]));
 }
 
 #define IDX(p) ((long)((p) - g_A))
@@ -21,12 +44,13 @@ void vx_touch(const int *x, const int *y) {
 #define AG (g_A[g_g])
 
 /* ---- linear_search ---- */
-static _Bool I_ll(const int *c) { return INSIDE(c) && (G < IDX(c) ? AG < g_key : 1); }
-static _Bool I_lu(const int *c) { return INSIDE(c) && (G < IDX(c) ? AG <= g_key : 1); }
+static _Bool I_ll(const ELT *c) { return INSIDE(c) && (G < IDX(c) ? LT(AG, g_key) : 1); }
+static _Bool I_lu(const ELT *c) { return INSIDE(c) && (G < IDX(c) ? LE(AG, g_key) : 1); }
 #define LHOOK(NAME, F, V, I)                                                                   \
 void vx_enter_linear_search__##NAME##_0(void) { F = 1; }                                        \
-_Bool vx_head_linear_search__##NAME##_0(const int **c, const int *a, const int *b) {            \
-    __CPROVER_assert(a == g_A && b == g_A + g_n, "loop linear_search." #NAME ": bounds are the node");  \
+_Bool vx_head_linear_search__##NAME##_0(const void **c_, const void *a, const void *b) {            \
+    const ELT **c = (const ELT **)c_;            \
+    __CPROVER_assert(a == (const void *)g_A && b == (const void *)(g_A + g_n), "loop linear_search." #NAME ": bounds are the node");  \
     if (F) {                                                                                    \
         __CPROVER_assert(I(*c), "loop linear_search." #NAME ".0 invariant base");               \
         unsigned long k = nondet_ulong(); __CPROVER_assume(k <= g_n); *c = g_A + k;             \
@@ -43,13 +67,14 @@ LHOOK(lower_bound, f_ll, v_ll, I_ll)
 LHOOK(upper_bound, f_lu, v_lu, I_lu)
 
 /* ---- binary_search ---- */
-static _Bool I_bl(const int *a, long count) { return INSIDE(a) && count >= 0 && count <= (long)g_n && IDX(a) + count <= (long)g_n && (G < IDX(a) ? AG < g_key : 1) && (G >= IDX(a) + count ? AG >= g_key : 1); }
-static _Bool I_bu(const int *a, long count) { return INSIDE(a) && count >= 0 && count <= (long)g_n && IDX(a) + count <= (long)g_n && (G < IDX(a) ? AG <= g_key : 1) && (G >= IDX(a) + count ? AG > g_key : 1); }
-static _Bool I_bc(const int *a, long count) { return INSIDE(a) && count >= 0 && count <= (long)g_n && IDX(a) + count <= (long)g_n && (G < IDX(a) ? AG < g_key : 1) && (G >= IDX(a) + count ? AG > g_key : 1); }
+static _Bool I_bl(const ELT *a, long count) { return INSIDE(a) && count >= 0 && count <= (long)g_n && IDX(a) + count <= (long)g_n && (G < IDX(a) ? LT(AG, g_key) : 1) && (G >= IDX(a) + count ? LE(g_key, AG) : 1); }
+static _Bool I_bu(const ELT *a, long count) { return INSIDE(a) && count >= 0 && count <= (long)g_n && IDX(a) + count <= (long)g_n && (G < IDX(a) ? LE(AG, g_key) : 1) && (G >= IDX(a) + count ? LT(g_key, AG) : 1); }
+static _Bool I_bc(const ELT *a, long count) { return INSIDE(a) && count >= 0 && count <= (long)g_n && IDX(a) + count <= (long)g_n && (G < IDX(a) ? LT(AG, g_key) : 1) && (G >= IDX(a) + count ? LT(g_key, AG) : 1); }
 #define BHOOK(NAME, F, V, I)                                                                   \
 void vx_enter_binary_search__##NAME##_0(void) { F = 1; }                                        \
-_Bool vx_head_binary_search__##NAME##_0(const int **a, const int **c, long *count, const int *b) { \
-    __CPROVER_assert(b == g_A + g_n, "loop binary_search." #NAME ": upper bound is the node end"); \
+_Bool vx_head_binary_search__##NAME##_0(const void **a_, const void **c_, long *count, const void *b) { \
+    const ELT **a = (const ELT **)a_, **c = (const ELT **)c_; \
+    __CPROVER_assert(b == (const void *)(g_A + g_n), "loop binary_search." #NAME ": upper bound is the node end"); \
     if (F) {                                                                                    \
         __CPROVER_assert(I(*a, *count), "loop binary_search." #NAME ".0 invariant base");       \
         unsigned long k = nondet_ulong(), k2 = nondet_ulong(); __CPROVER_assume(k <= g_n && k2 <= g_n); \
@@ -57,6 +82,7 @@ _Bool vx_head_binary_search__##NAME##_0(const int **a, const int **c, long *coun
         __CPROVER_assume(I(*a, *count));                                                        \
         V = *count; F = 0;                                                                      \
     } else {                                                                                    \
+        __CPROVER_assert(INSIDE(*a) && *count >= 0 && IDX(*a) + *count <= (long)g_n, "loop binary_search." #NAME ".0 invariant step (window inside the node)"); \
         __CPROVER_assert(I(*a, *count), "loop binary_search." #NAME ".0 invariant step");       \
         __CPROVER_assert(*count < V && V > 0, "loop binary_search." #NAME ".0 variant decreases"); \
         __CPROVER_assume(0);                                                                    \
@@ -68,28 +94,36 @@ BHOOK(upper_bound, f_bu, v_bu, I_bu)
 BHOOK(call, f_bc, v_bc, I_bc)
 
 /* ------------------------------------------------------------------ contracts */
-#define PRE (k == &g_key && a == g_A && b == g_A + g_n && g_g < g_n)
+#define PRE (k == (const void *)&g_key && a == (const void *)g_A && b == (const void *)(g_A + g_n) && g_g < g_n)
 #define RET __CPROVER_return_value
-#define RIN (__CPROVER_same_object(RET, g_A) && RET >= g_A && RET <= g_A + g_n)
+#define RETP ((const ELT *)__CPROVER_return_value)
+#define RIN (__CPROVER_same_object(RETP, g_A) && RETP >= g_A && RETP <= g_A + g_n)
 #define GHOSTS f_ll, f_lu, f_bl, f_bu, f_bc, v_ll, v_lu, v_bl, v_bu, v_bc
-#define POST_LB (RIN && (G < IDX(RET) ? AG < g_key : AG >= g_key))
-#define POST_UB (RIN && (G < IDX(RET) ? AG <= g_key : AG > g_key))
+#define POST_LB (RIN && (G < IDX(RETP) ? LT(AG, g_key) : LE(g_key, AG)))
+#define POST_UB (RIN && (G < IDX(RETP) ? LE(AG, g_key) : LT(g_key, AG)))
 /* operator(): a position holding the key, or (no element equals the key and) the lower bound */
-#define POST_FIND (RIN && ((IDX(RET) < (long)g_n && *RET == g_key) || (G < IDX(RET) ? AG < g_key : AG > g_key)))
+#define POST_FIND (RIN && ((IDX(RETP) < (long)g_n && EQ(*RETP, g_key)) || (G < IDX(RETP) ? LT(AG, g_key) : LT(g_key, AG))))
 
-const int *h_linear_search__lower_bound(const int *k, const int *a, const int *b) __CPROVER_requires(PRE) __CPROVER_ensures(POST_LB) __CPROVER_assigns(GHOSTS);
-const int *h_linear_search__upper_bound(const int *k, const int *a, const int *b) __CPROVER_requires(PRE) __CPROVER_ensures(POST_UB) __CPROVER_assigns(GHOSTS);
+const void *h_linear_search__lower_bound(const void *k, const void *a, const void *b) __CPROVER_requires(PRE) __CPROVER_ensures(POST_LB) __CPROVER_assigns(GHOSTS);
+const void *h_linear_search__upper_bound(const void *k, const void *a, const void *b) __CPROVER_requires(PRE) __CPROVER_ensures(POST_UB) __CPROVER_assigns(GHOSTS);
 /* linear operator() is lower_bound: the position of the FIRST element >= key */
-const int *h_linear_search__call(const int *k, const int *a, const int *b) __CPROVER_requires(PRE) __CPROVER_ensures(POST_LB) __CPROVER_assigns(GHOSTS);
-const int *h_binary_search__lower_bound(const int *k, const int *a, const int *b) __CPROVER_requires(PRE) __CPROVER_ensures(POST_LB) __CPROVER_assigns(GHOSTS);
-const int *h_binary_search__upper_bound(const int *k, const int *a, const int *b) __CPROVER_requires(PRE) __CPROVER_ensures(POST_UB) __CPROVER_assigns(GHOSTS);
-const int *h_binary_search__call(const int *k, const int *a, const int *b) __CPROVER_requires(PRE) __CPROVER_ensures(POST_FIND) __CPROVER_assigns(GHOSTS);
+const void *h_linear_search__call(const void *k, const void *a, const void *b) __CPROVER_requires(PRE) __CPROVER_ensures(POST_LB) __CPROVER_assigns(GHOSTS);
+const void *h_binary_search__lower_bound(const void *k, const void *a, const void *b) __CPROVER_requires(PRE) __CPROVER_ensures(POST_LB) __CPROVER_assigns(GHOSTS);
+const void *h_binary_search__upper_bound(const void *k, const void *a, const void *b) __CPROVER_requires(PRE) __CPROVER_ensures(POST_UB) __CPROVER_assigns(GHOSTS);
+const void *h_binary_search__call(const void *k, const void *a, const void *b) __CPROVER_requires(PRE) __CPROVER_ensures(POST_FIND) __CPROVER_assigns(GHOSTS);
 
-int h_comparator(int a, int b, int which)
-__CPROVER_requires(which >= 0 && which <= 2)
-__CPROVER_ensures(which == 0 ==> ((RET < 0) == (a < b) && (RET == 0) == (a == b) && (RET > 0) == (a > b)))
-__CPROVER_ensures(which == 1 ==> RET == (a < b))
-__CPROVER_ensures(which == 2 ==> RET == (a == b))
+#ifdef VX_KEY2
+int g_cav[2], g_cbv[2];
+#define g_ca (*(ELT *)g_cav)
+#define g_cb (*(ELT *)g_cbv)
+#else
+ELT g_ca, g_cb;
+#endif
+int h_comparator(const void *pa, const void *pb, int which)
+__CPROVER_requires(which >= 0 && which <= 2 && pa == (const void *)&g_ca && pb == (const void *)&g_cb)
+__CPROVER_ensures(which == 0 ==> ((RET < 0) == LT(g_ca, g_cb) && (RET == 0) == EQ(g_ca, g_cb) && (RET > 0) == LT(g_cb, g_ca)))
+__CPROVER_ensures(which == 1 ==> RET == LT(g_ca, g_cb))
+__CPROVER_ensures(which == 2 ==> RET == EQ(g_ca, g_cb))
 __CPROVER_assigns();
 
 #ifdef VX_CANARY
@@ -98,11 +132,26 @@ __CPROVER_assigns();
 #define CANARY
 #endif
 static void node(void) {
+#ifdef VX_KEY2
+    /* struct elements: a typed global array (a malloc'ed byte object read through two differently tagged struct types loses the
+       connection between the C and the C++ view in CBMC 6.11) */
+    static int store[2 * VX_NODE_MAX]; __CPROVER_havoc_object(store);
+    g_n = nondet_ulong(); __CPROVER_assume(g_n >= 1 && g_n <= VX_NODE_MAX); g_A = (const ELT *)store;
+#else
     g_n = nondet_ulong(); __CPROVER_assume(g_n >= 1 && g_n <= 4096);
-    int *p = malloc(g_n * sizeof(int)); __CPROVER_assume(p != NULL); g_A = p;
-    g_key = nondet_int(); g_g = nondet_ulong(); __CPROVER_assume(g_g < g_n);
+    ELT *p = malloc(g_n * sizeof(ELT)); __CPROVER_assume(p != NULL); g_A = p;
+#endif
+#ifdef VX_KEY2
+    g_keyv[0] = nondet_int(); g_keyv[1] = nondet_int();
+#else
+    { ELT k; g_key = k; }
+#endif g_g = nondet_ulong(); __CPROVER_assume(g_g < g_n);
 }
 #define HARN(S, F) void harness_##S##_##F(void) { node(); h_##S##__##F(&g_key, g_A, g_A + g_n); CANARY; }
 HARN(linear_search, lower_bound) HARN(linear_search, upper_bound) HARN(linear_search, call)
 HARN(binary_search, lower_bound) HARN(binary_search, upper_bound) HARN(binary_search, call)
-void harness_comparator(void) { h_comparator(nondet_int(), nondet_int(), nondet_int()); CANARY; }
+#ifdef VX_KEY2
+void harness_comparator(void) { g_cav[0] = nondet_int(); g_cav[1] = nondet_int(); g_cbv[0] = nondet_int(); g_cbv[1] = nondet_int(); h_comparator(&g_ca, &g_cb, nondet_int()); CANARY; }
+#else
+void harness_comparator(void) { ELT a, b; g_ca = a; g_cb = b; h_comparator(&g_ca, &g_cb, nondet_int()); CANARY; }
+#endif
